@@ -150,7 +150,7 @@ def run(
     m = _RE_DEPTH.search(text)
     if m:
         res.depth = int(m.group(1))
-    res.violated = _RE_INV.findall(text)
+    res.violated = _RE_INV.findall(text) + re.findall(r"The invariant of (\S+) is equal to FALSE", text)
     if "Action property" in text and "violated" in text or "Temporal properties were violated" in text:
         mm = re.search(r"Error: Action property (\S+) is violated|line \d+, col \d+ to line \d+, col \d+ of module \w+ is violated", text)
         res.violated.append(mm.group(1) if mm and mm.group(1) else "action-or-temporal-property")
@@ -162,7 +162,7 @@ def run(
     if rc == -9:
         raise TLCError(f"TLC timed out after {timeout}s: {' '.join(cmd)} (output {outp})")
     # rc 0 = ok, 12 = safety violation, 13 = liveness; anything else is machinery
-    if rc not in (0, 12, 13) and not (simulate and rc == 0):
+    if rc not in (0, 12, 13) and not (rc == 151 and res.violated):
         err = [l for l in text.splitlines() if "Error" in l or "error" in l or "Exception" in l]
         res.error_text = "\n".join(err[:20])
         raise TLCError(f"TLC failed rc={rc} on {module}: {res.error_text}\n(output {outp})")
